@@ -203,6 +203,9 @@ func dumpTyped(sb *strings.Builder, n datamodel.Node) {
 		sb.WriteString("!nil")
 		return
 	}
+	if k := n.Kind(); (n.IsNull() && k != datamodel.Kind_Null) || (n.IsAbsent() && k != datamodel.Kind_Null) {
+		sb.WriteString("!nullflags ")
+	}
 	switch {
 	case n.IsAbsent():
 		if sb.Len() > 0 {
